@@ -19,9 +19,9 @@ import (
 // formatted text, re-parse and compare trees, run both and compare traces.
 
 type c06Ctx struct {
-	model *Model
-	r     *Result
-	runs  int
+	model   *Model
+	r       *Result
+	runs    int
 	maxRuns int
 }
 
